@@ -29,6 +29,10 @@ CHECKS = {
  'C08': dict(level='exploration', ref='3/C08', technique='differential layout monitor: sizeof/_Alignof/member offsets and observed bit images (set one member, dump bytes) printed by chibicc-compiled code vs gcc == clang as psABI reference implementations',
              text='All permutations of all valid C11 type-specifier multisets are enumerated (exhaustive sub-space); struct/union member sequences with bit-fields (incl. zero-width and unnamed), nested/anonymous aggregates, flexible array members, aligned/_Alignas/packed are sampled randomly (6 000 types, ~95 000 layout observations per quick run); bit-field positions are observed through byte images rather than trusted; declarators are checked through sizeof.',
              note='gcc == clang trusted as the psABI; packed structs with bit-fields only in the dedicated probe of an open finding; no system headers in layout TUs (glibc defines __attribute__ away for non-GNU compilers)'),
+
+ 'C04': dict(level='exploration', ref='3/C04', technique='differential execution monitor with guard objects and position-dependent pattern fill (every named leaf dumped after each store) vs gcc == clang; runtime object registry (overlap/alignment/pattern) for VLA and alloca blocks; frame probes active',
+             text='For random aggregate shapes every sampled leaf lvalue is written through one of seven access forms after the enclosing object and two guards were filled with a pattern; all leaves and the guards are dumped, so a wrong address, width, mask or a disturbed neighbour shows up as a member-wise difference from gcc == clang. VLA/alloca blocks of sizes 0..4096 at several call depths and inside argument lists are registered with the runtime, which asserts non-overlap, alignment and pattern integrity; statement probes check the frame invariant while the temp area is moved.',
+             note='padding never compared; packed aggregates excluded (C08 findings); gcc == clang trusted for member values'),
 }
 REASON_WIP = 'check not built yet in this session (planned, see DESIGN.md section 3); will be claimed once its monitor is silent on the unchanged tree'
 
